@@ -15,6 +15,16 @@ FUNCS = [cr.combo_runner, cr.combo_runner_core, cr.nan_like_result, cr.infer_sha
 CONFORMANCE = ("random",)
 
 POOL = [(2, 0), (0, 1), (1, 1), (2, 2), (0, 0), (1, 2)]      # (a, b) points, deliberately unsorted
+# the same, with argument values of mixed numeric type / with tuple-valued argument values (both sortable)
+POOL_MIXED = [(2.5, 0), (1, 1.5), (0.5, 1), (3, 2), (1, 0), (2.5, 2)]
+POOL_TUPLE = [((2, 2), 0), ((1, 2), 1), ((3,), 1), ((2, 2), 2), ((1, 2), 0), ((3,), 2)]
+POOLS = [POOL, POOL_MIXED, POOL_TUPLE]
+
+
+def anum(a):
+    if isinstance(a, tuple):
+        return sum(a) + 7 * len(a)
+    return int(2 * a) if isinstance(a, float) else 2 * a          # stays an int: payloads are solver ints
 SUB = [50, 60]
 
 
@@ -64,9 +74,9 @@ def placeholder_ok(kind, x):
     return isinstance(x, tuple) and len(x) == 2 and nan_array(x[0], ()) and nan_array(x[1], ())
 
 
-def pick_cases(k, s1, s2, s3, s4):
+def pick_cases(k, s1, s2, s3, s4, which=0):
     """an ordered selection of k distinct pool points, chosen by solver-decided indices"""
-    pool = list(POOL)
+    pool = list(POOLS[which])
     out = []
     for i, s in enumerate((s1, s2, s3, s4)[:k]):
         n = len(pool)
@@ -77,20 +87,20 @@ def pick_cases(k, s1, s2, s3, s4):
     return out
 
 
-def body_cases(E, k, s1, s2, s3, s4, nsub, kind, dictsp, flat, via, base, shuf, j1, j2, j3, j4, j5):
+def body_cases(E, k, s1, s2, s3, s4, nsub, kind, dictsp, flat, via, base, shuf, j1, j2, j3, j4, j5, pool=0):
     k = concretize(k, 1, 4)
     nsub = concretize(nsub, 0, 2)
     kind = concretize(kind, 0, 4)
     flat = cbool(flat)
     via = concretize(via, 0, 1)           # 0 combo_runner(cases=), 1 case_runner (always flat)
-    pts = pick_cases(k, s1, s2, s3, s4)
+    pts = pick_cases(k, s1, s2, s3, s4, concretize(pool, 0, 2))
     N = k * max(nsub, 1)
     js = [0, j1, j2, j3, j4, j5][:N] + [0] * 6
     log = []
 
     def fn(a, b, c=0):
         log.append((a, b, c))
-        return result_of(kind, base + 100 * a + 10 * b + c)
+        return result_of(kind, base + 100 * anum(a) + 10 * anum(b) + c)
 
     # dict spelling: every other case lists its keys in the opposite order
     cases = [({"a": a, "b": b} if i % 2 == 0 else {"b": b, "a": a}) for i, (a, b) in enumerate(pts)] \
@@ -113,7 +123,7 @@ def body_cases(E, k, s1, s2, s3, s4, nsub, kind, dictsp, flat, via, base, shuf, 
             return False
 
         def val(a, b, c):
-            return result_of(kind, base + 100 * a + 10 * b + c)
+            return result_of(kind, base + 100 * anum(a) + 10 * anum(b) + c)
 
         if flat:
             if len(out) != len(want_calls):
@@ -208,6 +218,11 @@ CONDS = (
                  ["1 <= k <= 2 and 1 <= nsub <= 2 and via == 0 and not shuf and s3 == 0 and s4 == 0 and 0 <= kind <= 4",
                   _S, _NOJ, "k >= 2 or s2 == 0"], timeout=400,
                  bounds="1-2 cases crossed with a sub-grid of 1-2 values of a third argument, all result kinds"),
+    ] + split_conds(_G, "valtypes", body_cases, _SIG,
+                 ["1 <= k <= 3 and nsub == 0 and 0 <= via <= 1 and not shuf and s4 == 0 and kind == 0",
+                  _S, _NOJ, "k >= 2 or s2 == 0", "k >= 3 or s3 == 0", "via == 0 or not flat"], "pool", [1, 2], timeout=400,
+                 bounds="as `cases` with argument values of mixed int / float type (pool 1) and tuple-valued "
+                        "argument values (pool 2): the grid spans the sorted union of the values as given") + [
        make_cond(_G, "shuffled", body_cases, _SIG,
                  ["2 <= k <= 4 and nsub == 0 and via == 0 and shuf and kind == 0 and s1 == 0 and s2 == 0 and s3 == 0 "
                   "and s4 == 0 and dictsp", "0 <= j1 <= 1 and 0 <= j2 <= 2 and 0 <= j3 <= 3 and j4 == 0 and j5 == 0"],
